@@ -8,7 +8,11 @@ Three ingredients (see tools/README.md):
     against the Lean model (lean/DriverC12.lean), bit for bit after every gate;
   * direct search on the real code: flag <-> Clifford for every gate class, accepted
     circuits vs state vector, samples vs Born support, refusal of non-Clifford gates,
-    mid-circuit collapse, engines, tableau -> circuit round trips.
+    mid-circuit collapse, engines, tableau -> circuit round trips;
+  * tools/props/C12_synth.py: the Lean transliterations of `to_circuit("AG04" | "BM20")`
+    (QV/Model/CliffordSynth.lean) and of `CliffordBackend.execute_circuit`'s acceptance test and
+    run (QV/Model/CliffordAccept.lean) against the real code: same gate lists, same
+    refusal / exception / tableau.
 """
 from __future__ import annotations
 
@@ -1314,12 +1318,12 @@ def run(ctx):
     C12_synth.run_suites(ctx, sys.modules[__name__])
     ctx.notes.append("tableau correspondence: every operation of _clifford_operations.py through CliffordBackend.execute_circuit(initial_state=T) on tableaux enumerating all local Pauli patterns, every placement n<=3 (sampled n=4,5), angles k*pi/2 (k*pi) |k|<=40, multi-step histories compared after every gate, measurement via sample_shots with the random outcomes fed to the model as coins, gate matrices vs gate.matrix(), state vector of the simulator model (Gate.mgate / runSV over Z[i]) vs the real state-vector backend with every model stabiliser row (operator pauliOp evaluated in Lean, and as numpy matrix) fixing it, pauliOp vs symplectic_matrix_to_generators; "
                      "search: flag vs numeric Clifford test for every gate class (controlled_by versions, parameter sweeps, parameter updates; angle-aware classes with 1-3 controlled_by controls at k*pi/2 |k|<=16: flag vs full controlled operator and accepted => state-vector result), accepted circuits vs state vector (n<=5, depth<=30, initial_state, random_clifford), Born support of samples / frequencies / registers, exhaustive 2-qubit circuits, mid-circuit collapse histories, refusal of every non-Clifford class, stim engine, to_circuit AG04/BM20, copies and string forms; "
-                     "synthesis: the Lean transliteration of to_circuit('AG04') (helpers, phase loop, 1-qubit case, invert) returns the SAME gate list as the real code on all 1-qubit tableaux, all circuits up to length 2-3 over H/S/X/CNOT/CZ/SWAP for n=2,3, random circuits, random_clifford and sparse circuits up to n=8, and on the 2-qubit Clifford group (11520 tableaux; sampled in the quick tier), each real result re-executed (same tableau, same state up to phase, object untouched, second call equal); BM20 end to end on the same group; "
+                     "synthesis: the Lean transliteration of to_circuit('AG04') (helpers, phase loop, 1-qubit case, invert) returns the SAME gate list as the real code on all 1-qubit tableaux, all circuits up to length 2-3 over H/S/X/CNOT/CZ/SWAP for n=2,3, random circuits, random_clifford and sparse circuits up to n=8, and on the 2-qubit Clifford group (11520 tableaux; sampled in the quick tier), each real result re-executed (same tableau, same state up to phase, object untouched, second call equal); the transliteration of to_circuit('BM20') (cost functions, cost-reduction search, local part) against the real gate list on every tableau with n <= 3 and on the same group, ValueError for n = 4; "
                      "acceptance: the Lean model of execute_circuit (flags, refusal, engine dispatch, M with/without collapse, PauliNoiseChannel, initial_state) against the real backend on circuits mixing flagged/unflagged gates, rotations at boundary angles (pi/2 +- 1e-13 .. 1e-8), controlled rotations at odd multiples of pi/2, user-flagged Unitary: RuntimeError / other exception / tableau and collapse outcomes must coincide")
     ctx.assumptions.append("theorems: local conjugation U P = +-P' U for every operation and every local Pauli (complete: finite domain), row locality, symplectic invariance / tableau invariant for all n and all circuits, rowsum phase arithmetic; "
                            "assembled for every n: U_g P(w) = P(g.act w) U_g as operators on state vectors of the simulator model (T12_conjugation_all_qubits), lifted to circuits (rows of the tableau = conjugates of the initial rows; every stabiliser row fixes the state vector: T12_stabilizer_state); "
                            "measurement: rowsum = operator product, the determined outcome has Born probability 1 (T12_determined_outcome_born), in the random branch both outcomes have non-zero probability (T12_random_outcome_both_possible); the tableau written by _random_outcome describes the collapsed state (invariant, non-degeneracy, stabilisers fix the projected state: T12_random_outcome_keeps_invariants), hence for every circuit, every list of measured qubits and all coins the returned outcome string has non-zero Born probability (T12_measurement_sequence_born); "
-                           "tableau -> circuit: the transliterated AG04 synthesis keeps 'working tableau = original conjugated by the recorded gates', finishes rows j, n+j as X_j, Z_j stage by stage, clears all signs, and the returned (inverted) circuit executed from |0..0> gives back every row of every valid tableau, so its state vector is fixed by the tableau's stabilisers (T12_to_circuit_reproduces_tableau / _state / _round_trip; n = 1 via the 24 one-qubit tableaux); "
+                           "tableau -> circuit: the transliterated AG04 synthesis keeps 'working tableau = original conjugated by the recorded gates', finishes rows j, n+j as X_j, Z_j stage by stage, clears all signs, and the returned (inverted) circuit executed from |0..0> gives back every row of every valid tableau, so its state vector is fixed by the tableau's stabilisers (T12_to_circuit_reproduces_tableau / _state / _round_trip; n = 1 via the 24 one-qubit tableaux); BM20 (transliterated _cnot_cost2/_cnot_cost3/_reduce_cost): whenever it returns, the circuit reproduces the tableau (T12_bm20_reproduces_tableau: recorded gates = applied gates, cost 0 => rows q, n+q live on qubit q, local part rebuilds them); two circuits with the same tableau have proportional state vectors on the register labels (T12_same_tableau_same_state), hence both algorithms reproduce the state up to a non-zero scalar (T12_to_circuit_same_state, T12_bm20_same_state); "
                            "refusal: execute refuses exactly when a gate other than M / PauliNoiseChannel has clifford == False, and an accepted circuit is the fold runGates of its operations from zero_state or the initial state (T12_refused_iff, T12_accepted_run_is_fold, T12_accepted_agrees_with_statevector, collapse = measure on sorted qubits); "
-                           "NOT proved in Lean: Gaussian-integer gate matrices equal the documented ones up to positive/unit scalars (compared on every run), the float angle dispatch / clifford flag (sweeps), repeated execution / frequencies / registers API around M (correspondence and search), BM20 (cost-reduction search for n <= 3: end-to-end search only, exhaustive for n = 2 in the thorough tier; a kernel decision over the 92,897,280 three-qubit tableaux is infeasible), uniqueness of the stabilised state vector up to a scalar; stim is a third-party engine (search only)")
+                           "NOT proved in Lean: Gaussian-integer gate matrices equal the documented ones up to positive/unit scalars (compared on every run), the float angle dispatch / clifford flag (sweeps), repeated execution / frequencies / registers API around M (correspondence and search), that BM20's cost-reduction search always finds a reducing candidate (BM20Total: exactness of the cost functions; compared with the real code on every run, exhaustively for n = 2 in the thorough tier; a kernel decision over the 92,897,280 three-qubit tableaux is infeasible); stim is a third-party engine (search only)")
     ctx.trusted.append("numpy kron / matrix products as the meaning of Pauli strings and of U P U^dagger in the numeric Clifford test (tolerance 1e-9)")
